@@ -14,7 +14,7 @@ import glob, json, os, re, shutil
 V = os.path.dirname(os.path.dirname(os.path.abspath(__file__)))
 RES = "/tmp/mut/eval_results"
 out_root = os.path.join(V, "seeded")
-WAVE = {"out": 1, "outr": 1, "out2": 2, "out2r": 2, "out3": 3, "out3r": 3, "out4": 4, "out4r": 4, "out5": 5, "out5r": 5}
+WAVE = {"out": 1, "outr": 1, "out2": 2, "out2r": 2, "out3": 3, "out3r": 3, "out4": 4, "out4r": 4, "out5": 5, "out5r": 5, "out6": 6, "out6r": 6}
 
 
 def load(p):
@@ -75,7 +75,7 @@ for rp in sorted(glob.glob(os.path.join(RES, "final-*.json"))):
     agent = agent_meta(src)
     hist = []
     early = {"out": ["%s-m%s.json" % (pid, k)], "out2": ["w2-%s-m%s.json" % (pid, k)], "out3": ["w3-%s-m%s.json" % (pid, k)],
-             "out4": ["w4-%s-m%s.json" % (pid, k)], "out5": ["w5-%s-m%s.json" % (pid, k)]}.get(sub[:-1] if sub.endswith("r") else sub, [])
+             "out4": ["w4-%s-m%s.json" % (pid, k)], "out5": ["w5-%s-m%s.json" % (pid, k)], "out6": ["w6-%s-m%s.json" % (pid, k)]}.get(sub[:-1] if sub.endswith("r") else sub, [])
     for label, fn in [("first evaluation, against the checks as they were when the change was produced", f) for f in early] + \
                      [("re-evaluation after the checks were strengthened", "re-%s-%s-m%s.json" % (sub, pid, k))]:
         b = brief(load(os.path.join(RES, fn)))
